@@ -5,7 +5,8 @@
    fixes/C15-cache-verify.patch the first two theorems fail to check. *)
 From Coq Require Import List String Ascii Bool Arith ZArith.
 From NG Require Import Gen.C15Consts Svc.HistKey Svc.HistKey_proofs Svc.HistCache Svc.HistCache_proofs
-                       Svc.HistRun Svc.Hist_now Svc.Params Svc.Params_proofs.
+                       Svc.HistCache_more Svc.HistRun Svc.Hist_now Svc.HistEvict
+                       Svc.Params Svc.Params_proofs Svc.Params_more.
 Import ListNotations.
 Open Scope string_scope.
 Open Scope list_scope.
@@ -77,6 +78,28 @@ Theorem C15_key_collision_refuted :
 Proof. exact (conj key_now_collisions collision_changes_events). Qed.
 Print Assumptions C15_key_collision_refuted.
 
+(* Verified lookup, ARBITRARY clients and cache contents (no honesty needed): entries stored for
+   other message lists are never used - a request none of whose proper prefixes literally is a
+   message list something was stored for is turned into the plain conversion of its messages,
+   whatever keys those entries have *)
+Theorem C15_unrelated_entries_ignored :
+  forall (A : Type) (A_eq_dec : forall x y : A, {x = y} + {x <> y})
+         (K : Type) (K_eqb : K -> K -> bool) (keyf : list (msg A) -> K)
+         (Ev : Type) (conv : list (msg A) -> list Ev) (c : cache A K Ev) ms,
+    (forall p e, 0 < p < List.length ms -> In e c -> e_msgs _ _ _ e <> firstn p ms) ->
+    events_for A A_eq_dec K K_eqb keyf Ev conv true c ms = conv ms.
+Proof. exact unrelated_entries_ignored. Qed.
+Print Assumptions C15_unrelated_entries_ignored.
+
+(* why the repair keeps one entry per MESSAGE LIST under a key: a repair that verifies the
+   messages on a hit but keeps a single entry per key is refuted - another conversation evicts
+   the entry and the continuing conversation is turned into different events *)
+Theorem C15_evicting_repair_refuted :
+  key_now (ev_xR ++ [reply_exc]) = key_now (ev_x ++ [reply_R]) /\
+  events_for_c true cache_shared req2 <> events_for_c true cache_alone req2.
+Proof. exact evicting_store_refuted. Qed.
+Print Assumptions C15_evicting_repair_refuted.
+
 (* LLMParams, one manager: when every altered parameter has a proper place (an attribute or an
    existing model_kwargs entry) exit after enter gives back exactly the configured object *)
 Theorem C15_params_sequential :
@@ -96,6 +119,26 @@ Theorem C15_params_quiescent :
     Forall (fun ob => po_seen ob = with_params (po_own ob) l) (snd (srun sched (sinit l tasks))).
 Proof. exact serial_ok. Qed.
 Print Assumptions C15_params_quiescent.
+
+(* ... and not only at the end: at EVERY moment of a no-overlap schedule at which nothing is in
+   flight the parameters are the configured ones *)
+Theorem C15_params_quiescent_always :
+  forall l tasks sched pre post,
+    (forall t, Forall (normal l) (tasks t)) -> serial sched -> sched = pre ++ post ->
+    quiescent (fst (srun pre (sinit l tasks))) ->
+    p_llm (s_st (fst (srun pre (sinit l tasks)))) = l.
+Proof. exact quiescent_always_configured. Qed.
+Print Assumptions C15_params_quiescent_always.
+
+(* properly nested managers (LIFO) also restore the configured object *)
+Theorem C15_params_nested_restores :
+  forall l a b,
+    normal l a -> normal (fst (enter a l [])) b ->
+    let '(l1, sa) := enter a l [] in
+    let '(l2, sb) := enter b l1 [] in
+    exit_ sa (exit_ sb l2) = l.
+Proof. exact nested_restores. Qed.
+Print Assumptions C15_params_nested_restores.
 
 (* known finding (regression documentation): two overlapping tasks - task 0's call runs with
    task 1's temperature and, after both finished, the temperature is not the configured one *)
